@@ -5,7 +5,7 @@ Functions under contract (real source, inlined): sid.PathSid.path (through the r
   fs_resolver.path_to_dict (through lru_kw_cache), sid_factory.sid_factory / path_to_sid, sid_resolver.dict_to_sid, utils.get_key.
 
 requires  typed(x) of a template T that has a path template in configuration c; x concrete (no search symbol in its string);
-          A-path-norm: every field value is non-empty, is not '.' or '..' and contains no newline (pathlib.Path normalises those away;
+          A-path-norm: every field value is non-empty and is not '.' (pathlib.Path normalises an empty or '.' component away;
           that class is the recorded finding C05-pathnorm, replayed natively on every run)
 ensures   p = x.path(c) is not None, raises nothing;  Sid(path=p, config=c) has view == view(x)   [type, fields in template order, string]
           path is a function of (type, fields, c): a second call returns an equal path
@@ -32,7 +32,7 @@ FUNCTIONS = {'spil/sid/sid.py': ['PathSid.path', 'BaseSid.__new__'], 'spil/sid/p
 TRUSTED = ['resolva methods + match_to_dict interpreted from source; re.search/groupdict modelled',
            'pathlib.Path(str) / str(Path): identity on normalised posix strings (A-path-norm)',
            'pathconfig.get_path_config: returns the configuration object of the snapshot (module import outside the subset)']
-ASSUMPTIONS = ['A-path-norm: field values non-empty, not "." / "..", newline-free (recorded finding C05-pathnorm for the excluded class)',
+ASSUMPTIONS = ['A-path-norm: field values non-empty and not "." (recorded finding C05-pathnorm for the excluded class)',
                'x concrete: no search symbol (* , > < **) in its string']
 EXPLANATION = 'every sid template x every path configuration, field values symbolic under their patterns (mapped values, "_"-containing names, node / no-node cache files included)'
 BUDGET_S = {'quick': 1500, 'thorough': 3000}
@@ -46,6 +46,9 @@ def cases(tier):
     for c in configs():
         for T in C.spec_templates(): cs.append(('roundtrip' if T in path_types(c) else 'nopath', T, c))
     cs.append(('untyped',))
+    for ci, (ch, where) in enumerate(multi_chunks()):
+        for k, x in enumerate(ch.items):
+            if x[0] != 'lit': cs.append(('lemma', ci, k))
     for T in C.spec_templates():
         if all(T in path_types(c) for c in configs()) and len(configs()) >= 2: cs.append(('roots', T))
     return cs
@@ -55,13 +58,14 @@ def assume_concrete(it, st, vals):
         z = st.norm(v).z()
         for a in st.norm(v).atoms:
             if isinstance(a, Var):
-                for ch in '*,><\n':
+                for ch in '*,><':
                     if ch not in st.excl.get(a.name, ()): st.excl.setdefault(a.name, set()).add(ch)
                 st.nonempty.add(a.name)
-        st.assume(z != z3.StringVal('')); st.assume(z != z3.StringVal('.')); st.assume(z != z3.StringVal('..'))
+        st.assume(z != z3.StringVal('')); st.assume(z != z3.StringVal('.'))
 
 def run(it, st, case):
     kind = case[0]
+    if kind == 'lemma': return run_lemma(it, st, case[1], case[2])
     if kind == 'untyped':
         Sid = C.sid_class(it); x = PObj(Sid); s = SStr([st.fresh('u')]); x.attrs.update({'_string': s, '_type': '', '_fields': PDict()})
         st.inputs['string'] = s
@@ -141,46 +145,41 @@ def multi_chunks():
                     seen.setdefault(key, (ch, f'{rid}:{label}'))
     return list(seen.values())
 
-def lemmas(tier):
-    """for every multi-group chunk: concat(g) == concat(h) and g != h is unsatisfiable (split per word of the last closed-vocabulary group)"""
-    obs = []
-    budget = 60 if tier == 'quick' else 180
-    for ch, where in multi_chunks():
-        items = ch.items
-        last_i = max(i for i, x in enumerate(items) if x[0] != 'lit')
-        words = finite_words(items[last_i][2], limit=40)
-        splits = words if words is not None else [None]
-        t0 = time.time(); status = 'discharged'; backend = set(); why = None; witness = None
-        for w in splits:
-            g = []; h = []; cs = []
-            for i, x in enumerate(items):
-                if x[0] == 'lit': g.append(z3.StringVal(x[1])); h.append(z3.StringVal(x[1])); continue
-                if i == last_i and w is not None: g.append(z3.StringVal(w)); h.append(z3.StringVal(w)); continue   # literal suffix on both sides (right-anchored: same last word)
-                gi = z3.String(f'g{i}'); hi = z3.String(f'h{i}'); g.append(gi); h.append(hi)
-                ws = finite_words(x[2], limit=40)
-                for v in (gi, hi): cs.append(z3.Or(*[v == z3.StringVal(u) for u in ws]) if ws is not None else z3.InRe(v, x[2]))
-            cs.append(z3.Concat(*g) == z3.Concat(*h))
-            diffs = [a != b for a, b in zip(g, h) if not z3.is_string_value(a)]
-            cs.append(z3.Or(*diffs) if len(diffs) > 1 else diffs[0])
-            try: r = solve(cs, want_model=True, budget_s=budget, label='chunk-uniqueness')
-            except Undecided as e: status = 'undecided'; why = str(e); break
-            if r[0] == 'sat':
-                if model_ok(r[1], cs): status = 'refuted'; witness = {f'g{i}': r[1].var(f'g{i}') for i, x in enumerate(items) if x[0] != 'lit' and not (i == last_i and w is not None)}; witness.update({f'h{i}': r[1].var(f'h{i}') for i, x in enumerate(items) if x[0] != 'lit' and not (i == last_i and w is not None)})
-                else: status = 'undecided'; why = 'invalid model'
-                break
-            backend.add(r[2])
-        # the last group itself: two decompositions could end in different words of the closed vocabulary -- covered when no word is a proper suffix-extension conflict:
-        text = ''.join(x[1] if x[0] == 'lit' else '{' + (x[1] or '?') + '}' for x in items)
-        ob = {'name': f'C05:lemma:chunk-decomposition-is-unique:{text}', 'status': status, 'props': ['C05', 'C06'], 't': round(time.time() - t0, 2), 'info': {'where': where, 'splits': len(splits)}}
-        if status == 'discharged': ob['backend'] = '+'.join(sorted(backend))
-        elif status == 'refuted': ob['inputs'] = {'lemma': text, 'witness': witness}
-        else: ob['why'] = why
-        obs.append(ob)
-    return obs
+def item_re(x):
+    return z3.Re(z3.StringVal(x[1])) if x[0] == 'lit' else x[2]
+def run_lemma(it, st, ci, k):
+    """left-to-right determinism of the decomposition of a multi-group chunk at its k-th item:
+       two decompositions that agree before item k also agree on item k.
+       g in L_k, g.d in L_k, d != '', d.H in Rest_k, H in Rest_k   is unsatisfiable   (Rest_k = language of the items after k)"""
+    ch, where = multi_chunks()[ci]
+    items = ch.items
+    text = ''.join(x[1] if x[0] == 'lit' else '{' + (x[1] or '?') + '}' for x in items)
+    Lk = item_re(items[k]); rest = items[k + 1:]
+    g, d, H = z3.String('g'), z3.String('d'), z3.String('H')
+    cs = [z3.InRe(g, Lk), z3.InRe(z3.Concat(g, d), Lk), d != z3.StringVal('')]
+    if rest:
+        R = z3.Concat(*[item_re(x) for x in rest]) if len(rest) > 1 else item_re(rest[0])
+        cs += [z3.InRe(z3.Concat(d, H), R), z3.InRe(H, R)]
+    else:
+        cs += [z3.BoolVal(False)]      # last item: both decompositions end at the end of the segment, so d == ''
+    t0 = time.time()
+    name = f'C05:lemma:chunk-decomposition-is-deterministic:{text}:item{k}'
+    ob = {'name': name, 'props': ['C05', 'C06'], 'info': {'where': where, 'item': items[k][1] or 'wildcard'}}
+    try:
+        r = solve(cs, want_model=True, budget_s=90, label='chunk-determinism')
+        if r[0] == 'unsat': ob.update(status='discharged', backend=r[2])
+        elif model_ok(r[1], cs):
+            ob.update(status='refuted', model=r[1]); st.inputs.update({'lemma': text, 'item': k, 'g': SStr([Var('g')]), 'd': SStr([Var('d')]), 'H': SStr([Var('H')])})
+        else: ob.update(status='undecided', why='solver returned an invalid model')
+    except Undecided as e: ob.update(status='undecided', why=str(e))
+    ob['t'] = round(time.time() - t0, 3)
+    st.obligations.append(ob)
+    return 'ok'
 
 # ------------------------------------------------------------------ native side
 def crosscheck(case, conc, exp):
     kind = case[0]
+    if kind == 'lemma': return {'status': 'agree', 'note': 'lemma: no program outcome'}
     Sid = C.native()['Sid']
     try:
         if kind == 'untyped':
@@ -198,8 +197,9 @@ def crosscheck(case, conc, exp):
     return {'status': 'agree'}
 
 def replay(case, ob, inputs):
-    if case is None:
-        return {'confirmed': False, 'call': 'lemma ' + str(inputs.get('lemma')), 'observed': repr(inputs.get('witness')), 'expected': 'no two decompositions'}
+    if case is None or case[0] == 'lemma':
+        import re as _re
+        return {'confirmed': False, 'call': 'lemma ' + str(inputs.get('lemma')), 'observed': repr({k: inputs.get(k) for k in ('g', 'd', 'H')}), 'expected': 'no two decompositions of one segment'}
     kind = case[0]; Sid = C.native()['Sid']
     C.clear_native_caches()
     if kind == 'untyped':
